@@ -88,6 +88,62 @@ Proof.
 Qed.
 
 (* ------------------------------------------------------------------ *)
+(* a piece is a difference of an antiderivative at the clamped bounds *)
+
+Definition clampZ (t1 t2 x : Z) : Z := Z.min (Z.max x t1) t2.
+
+(* antiderivative (vanishing at t1) of the interpolant of the interval:
+   level data: v1 + a (t - t1); rainfall: the rate v2/(t2-t1), times P *)
+Definition Fpiece (rain : bool) (P t1 t2 : Z) (v1 v2 : R) (x : Z) : R :=
+  if rain then v2 * (IZR x - IZR t1) / (IZR t2 - IZR t1) * IZR P
+  else (v2 - v1) / (IZR t2 - IZR t1) * (IZR x - IZR t1) * (IZR x - IZR t1) / 2
+       + v1 * (IZR x - IZR t1).
+
+Lemma piece_clamp rain P s e t1 t2 v1 v2 : (t1 <= t2)%Z -> (s <= e)%Z ->
+  piece rain P s e t1 t2 v1 v2 =
+  Fpiece rain P t1 t2 v1 v2 (clampZ t1 t2 e) - Fpiece rain P t1 t2 v1 v2 (clampZ t1 t2 s).
+Proof.
+  intros Ht Hs. unfold piece.
+  destruct (Z.ltb_spec (Z.max t1 s) (Z.min t2 e)) as [H|H].
+  - replace (clampZ t1 t2 e) with (Z.min t2 e) by (unfold clampZ; lia).
+    replace (clampZ t1 t2 s) with (Z.max t1 s) by (unfold clampZ; lia).
+    unfold Fpiece. destruct rain.
+    + unfold Rdiv. ring.
+    + set (a := (v2 - v1) / (IZR t2 - IZR t1)). field.
+  - replace (clampZ t1 t2 e) with (clampZ t1 t2 s) by (unfold clampZ; lia). ring.
+Qed.
+
+(* cutting a period at m splits every piece exactly *)
+Lemma piece_additive rain P s m e t1 t2 v1 v2 : (t1 <= t2)%Z -> (s <= m <= e)%Z ->
+  piece rain P s m t1 t2 v1 v2 + piece rain P m e t1 t2 v1 v2 = piece rain P s e t1 t2 v1 v2.
+Proof. intros Ht Hs. rewrite !piece_clamp by lia. ring. Qed.
+
+(* rainfall: the piece is the share of the increment that falls in the period *)
+Definition rain_share (s e t1 t2 : Z) : R :=
+  IZR (Z.max 0 (Z.min t2 e - Z.max t1 s)) / IZR (t2 - t1).
+
+Lemma piece_rain P s e t1 t2 v1 v2 :
+  piece true P s e t1 t2 v1 v2 = v2 * rain_share s e t1 t2 * IZR P.
+Proof.
+  unfold piece, rain_share.
+  destruct (Z.ltb_spec (Z.max t1 s) (Z.min t2 e)).
+  - rewrite (Z.max_r 0) by lia. rewrite !minus_IZR. unfold Rdiv. ring.
+  - rewrite (Z.max_l 0) by lia. unfold Rdiv. ring.
+Qed.
+
+Lemma rain_share_range s e t1 t2 : (t1 < t2)%Z -> 0 <= rain_share s e t1 t2 <= 1.
+Proof.
+  intros H. unfold rain_share.
+  assert (0 < IZR (t2 - t1)) by (apply IZR_lt; lia).
+  assert (0 <= IZR (Z.max 0 (Z.min t2 e - Z.max t1 s))) by (apply IZR_le; lia).
+  assert (IZR (Z.max 0 (Z.min t2 e - Z.max t1 s)) <= IZR (t2 - t1)) by (apply IZR_le; lia).
+  split.
+  - apply Rmult_le_pos; [auto | left; now apply Rinv_0_lt_compat].
+  - apply Rmult_le_reg_r with (IZR (t2 - t1)); auto.
+    unfold Rdiv. rewrite Rmult_assoc, Rinv_l by lra. lra.
+Qed.
+
+(* ------------------------------------------------------------------ *)
 Section KernelRN.
 Variable endcheck : bool.
 Variables (P rainfall maxgap hstart : Z) (sec : list Z) (vals : list (option R)).
@@ -294,4 +350,446 @@ Proof.
     + intros x -> _. rewrite psum_empty. f_equal; lra.
 Qed.
 
+(* ------------------------------------------------------------------ *)
+(* the loop over the periods *)
+
+Definition pstart (i : Z) : Z := (hstart + i * P)%Z.
+Definition pend (i : Z) : Z := (hstart + i * P + P)%Z.
+
+Lemma pstart_succ i : pstart (i + 1) = pend i.
+Proof. unfold pstart, pend. ring. Qed.
+
+(* value stored for period i when varindex = k at the top of the body *)
+Definition hval (i : Z) (k : nat) : option R :=
+  let k' := stop n (pend i) k in
+  if anyinv k k' || endflag (pend i) then None
+  else Some (psum (pstart i) (pend i) k k' / IZR P).
+
+(* varindex at the top of the next body *)
+Definition vnext (i : Z) (k : nat) : nat := pred (stop n (pend i) k).
+
+Fixpoint spec_periods (cnt : nat) (i : Z) (k : nat) : list (option R) :=
+  match cnt with
+  | O => []
+  | S c => hval i k :: spec_periods c (i + 1) (vnext i k)
+  end.
+
+Lemma spec_periods_length cnt i k : length (spec_periods cnt i k) = cnt.
+Proof. revert i k; induction cnt; simpl; intros; [reflexivity | now rewrite IHcnt]. Qed.
+
+Lemma nadd_zt a b : nadd RN (zt a) (zt b) = zt (a + b).
+Proof. unfold zt; simpl. now rewrite plus_IZR. Qed.
+
+Lemma vnext_lt i k : (S k < n)%nat -> (S (vnext i k) < n)%nat.
+Proof.
+  intros Hk. unfold vnext. pose proof (stop_lt n (pend i) k Hk).
+  pose proof (stop_ge n (pend i) k). lia.
+Qed.
+
+Lemma periods_RN cnt i k : (S k < n)%nat ->
+  periods RN INV OV endcheck P rainfall maxgap hstart sec vals cnt i k
+  = POk (spec_periods cnt i k).
+Proof.
+  revert i k; induction cnt as [|c IH]; intros i k Hk; cbn [periods spec_periods]; [reflexivity|].
+  change (nofZ RN) with zt. rewrite nadd_zt.
+  destruct (walk_RN n (pstart i) (pend i) k (n0 RN) false Hk ltac:(lia)) as (hv' & Hw & Hv).
+  unfold pstart, pend in Hw. rewrite Hw. fold (pend i) (pstart i) in *.
+  fold (vnext i k). rewrite (IH (i + 1)%Z (vnext i k) (vnext_lt i k Hk)).
+  do 2 f_equal. unfold hval. cbn [orb].
+  destruct (anyinv k (stop n (pend i) k) || endflag (pend i)) eqn:E; [reflexivity|].
+  apply orb_false_iff in E as [E1 E2].
+  rewrite (Hv 0 eq_refl E1). unfold zt; simpl. now rewrite Rplus_0_l.
+Qed.
+
+(* ------------------------------------------------------------------ *)
+(* where varindex points at the top of each period *)
+
+Hypothesis HP : (0 < P)%Z.
+
+Definition bracket (i : Z) (k : nat) : Prop :=
+  (S k < n)%nat /\ (ts k <= pstart i)%Z /\
+  ((pstart i <= ts (S k))%Z \/ S k = (n - 1)%nat).
+
+Lemma pstart_lt_pend i : (pstart i < pend i)%Z.
+Proof. unfold pstart, pend. lia. Qed.
+
+Lemma bracket_next i k : bracket i k -> bracket (i + 1) (vnext i k).
+Proof.
+  intros (Hk & Hs & _). unfold bracket, vnext. rewrite pstart_succ.
+  pose proof (pstart_lt_pend i).
+  pose proof (stop_progress n (pend i) k ltac:(lia) ltac:(lia)) as Hpr.
+  pose proof (stop_lt n (pend i) k Hk) as Hlt.
+  set (k' := stop n (pend i) k) in *.
+  replace (S (pred k')) with k' by lia.
+  split; [lia|]. split.
+  - apply Z.lt_le_incl, (stop_visited n (pend i) k). fold k'. lia.
+  - destruct (Nat.eq_dec k' (n - 1)); [now right|left].
+    apply stop_end; fold k'; lia.
+Qed.
+
+(* ------------------------------------------------------------------ *)
+(* intervals outside the walk do not overlap the period *)
+
+Lemma piece_zero_left r p s e t1 t2 v1 v2 : (t2 <= s)%Z -> piece r p s e t1 t2 v1 v2 = 0.
+Proof. intros H. unfold piece. destruct (Z.ltb_spec (Z.max t1 s) (Z.min t2 e)); [lia|reflexivity]. Qed.
+Lemma piece_zero_right r p s e t1 t2 v1 v2 : (e <= t1)%Z -> piece r p s e t1 t2 v1 v2 = 0.
+Proof. intros H. unfold piece. destruct (Z.ltb_spec (Z.max t1 s) (Z.min t2 e)); [lia|reflexivity]. Qed.
+
+(* the sum over ALL the intervals of the series *)
+Definition area (s e : Z) : R := psum s e 0 (n - 1).
+
+Lemma walk_sum_is_area i k : bracket i k ->
+  psum (pstart i) (pend i) k (stop n (pend i) k) = area (pstart i) (pend i).
+Proof.
+  intros (Hk & Hs & _). unfold area.
+  pose proof (stop_ge n (pend i) k) as Hge.
+  pose proof (stop_lt n (pend i) k Hk) as Hlt.
+  set (k' := stop n (pend i) k) in *.
+  rewrite (psum_split _ _ 0 k (n - 1)) by lia.
+  rewrite (psum_split _ _ k k' (n - 1)) by lia.
+  rewrite (psum_zero _ _ 0 k), (psum_zero _ _ k' (n - 1)); [lra| |].
+  - intros j Hj. unfold pc. apply piece_zero_right.
+    assert (pend i <= ts k')%Z by (apply stop_end; fold k'; lia).
+    assert (ts k' <= ts j)%Z by (apply ts_mono; lia). lia.
+  - intros j Hj. unfold pc. apply piece_zero_left.
+    assert (ts (S j) <= ts k)%Z by (apply ts_mono; lia). lia.
+Qed.
+
+(* every value is missing or the area of its period divided by its length *)
+Lemma hval_cases i k : bracket i k ->
+  hval i k = None \/ hval i k = Some (area (pstart i) (pend i) / IZR P).
+Proof.
+  intros Hb. unfold hval.
+  destruct (anyinv k (stop n (pend i) k) || endflag (pend i)); [now left|right].
+  now rewrite walk_sum_is_area.
+Qed.
+
+(* the exact condition under which a period is missing *)
+Lemma hval_none_iff i k : bracket i k ->
+  hval i k = None <->
+  (endcheck = true /\ (ts (n - 1) < pend i)%Z) \/
+  exists j, (k <= j)%nat /\ (S j < n)%nat /\ (ts j < pend i)%Z /\ ivl_invalid j = true.
+Proof.
+  intros (Hk & Hs & _). unfold hval.
+  pose proof (stop_lt n (pend i) k Hk) as Hlt.
+  set (k' := stop n (pend i) k) in *.
+  destruct (anyinv k k' || endflag (pend i)) eqn:E.
+  - split; [intros _|reflexivity].
+    apply orb_true_iff in E as [E|E].
+    + right. apply anyinv_true_iff in E as (j & Hj & Hi).
+      exists j. repeat split; try lia; auto.
+      apply (stop_visited n (pend i) k). fold k'. lia.
+    + left. unfold endflag in E. apply andb_true_iff in E as [E1 E2].
+      split; [auto | now apply Z.ltb_lt].
+  - apply orb_false_iff in E as [E1 E2]. split; [discriminate|].
+    intros [[Hc Hl]|(j & Hj & Hn & Ht & Hi)]; exfalso.
+    + unfold endflag in E2. rewrite Hc in E2. simpl in E2. apply Z.ltb_ge in E2. lia.
+    + assert (j < k')%nat.
+      { destruct (Nat.lt_ge_cases j k') as [|Hge]; [auto|exfalso].
+        assert (pend i <= ts k')%Z by (apply stop_end; fold k'; lia).
+        assert (ts k' <= ts j)%Z by (apply ts_mono; lia). lia. }
+      assert (anyinv k k' = true) by (apply anyinv_true_iff; exists j; split; [lia|auto]).
+      congruence.
+Qed.
+
+(* every period of the output is [hval] at a bracketing index *)
+Lemma spec_periods_nth cnt i k j : (j < cnt)%nat -> bracket i k ->
+  exists k', bracket (i + Z.of_nat j) k' /\
+             nth j (spec_periods cnt i k) None = hval (i + Z.of_nat j) k'.
+Proof.
+  revert i k j; induction cnt as [|c IH]; intros i k j Hj Hb; [lia|].
+  destruct j as [|j]; cbn [spec_periods nth].
+  - exists k. replace (i + Z.of_nat 0)%Z with i by lia. auto.
+  - destruct (IH (i + 1)%Z (vnext i k) j ltac:(lia) (bracket_next i k Hb)) as (k' & Hb' & Hn).
+    exists k'. replace (i + Z.of_nat (S j))%Z with (i + 1 + Z.of_nat j)%Z by lia. auto.
+Qed.
+
+(* ------------------------------------------------------------------ *)
+(* the whole kernel *)
+
+Lemma position_spec l h c : position l h = Some c ->
+  (c < length l)%nat /\ (h < nth c l 0)%Z /\ forall j, (j < c)%nat -> (nth j l 0 <= h)%Z.
+Proof.
+  revert c; induction l as [|t r IH]; simpl; intros c H; [discriminate|].
+  destruct (Z.leb_spec t h).
+  - destruct (position r h) as [c'|]; [|discriminate]. injection H as <-.
+    destruct (IH c' eq_refl) as (A & B & C).
+    repeat split; [lia | exact B | intros [|j] Hj; [auto | apply C; lia]].
+  - injection H as <-. repeat split; [lia | auto | intros; lia].
+Qed.
+
+Lemma position_exists l h :
+  (exists k, (k < length l)%nat /\ (h < nth k l 0)%Z) -> exists c, position l h = Some c.
+Proof.
+  induction l as [|a l IH]; intros (k & Hk & Hh); simpl in *; [lia|].
+  destruct (Z.leb_spec a h); eauto.
+  destruct k; [lia|]. destruct IH as [c Hc]; [exists k; split; [lia|auto]|].
+  rewrite Hc; simpl; eauto.
+Qed.
+
+Lemma position_none l h : position l h = None ->
+  forall k, (k < length l)%nat -> (nth k l 0 <= h)%Z.
+Proof.
+  intros H k Hk. destruct (Z.le_gt_cases (nth k l 0%Z) h); [auto|exfalso].
+  destruct (position_exists l h) as [c Hc]; [exists k; split; [auto|lia]|congruence].
+Qed.
+
+Lemma c_var2h_RN_spec hinit :
+  (0 <= rainfall <= 1)%Z -> In P VAR2H_C_PERIODS ->
+  (ts 0 <= hstart)%Z -> (exists k, (k < n)%nat /\ (hstart < ts k)%Z) ->
+  exists v, bracket 0 v /\
+    c_var2h_RN endcheck P rainfall maxgap hstart sec vals hinit =
+    VOk (spec_periods (length hinit - 1) 0 v ++ skipn (length hinit - 1) hinit).
+Proof.
+  intros Hr Hin H0 Hex.
+  destruct (position_exists sec hstart Hex) as [c Hc].
+  destruct (position_spec sec hstart c Hc) as (Hcn & Hch & Hcj).
+  destruct c as [|v]; [unfold tsec in H0; lia|].
+  exists v. split.
+  - unfold bracket, pstart. split; [lia|]. split.
+    + specialize (Hcj v ltac:(lia)). unfold tsec. lia.
+    + left. unfold tsec. lia.
+  - unfold c_var2h_RN, c_var2h.
+    destruct (Z.ltb_spec rainfall 0); [lia|]. destruct (Z.ltb_spec 1 rainfall); [lia|].
+    cbn [orb].
+    assert (existsb (Z.eqb P) VAR2H_C_PERIODS = true) as ->
+      by (apply existsb_exists; exists P; split; [auto | apply Z.eqb_refl]).
+    cbn [negb]. rewrite Hc, periods_RN by lia.
+    now rewrite spec_periods_length.
+Qed.
+
+(* ------------------------------------------------------------------ *)
+(* consequences for one period, in terms of the data only *)
+
+(* an invalid interval that overlaps the period makes it missing *)
+Lemma hval_overlap_invalid i k j : bracket i k ->
+  (S j < n)%nat -> (ts j < pend i)%Z -> (pstart i < ts (S j))%Z ->
+  ivl_invalid j = true -> hval i k = None.
+Proof.
+  intros Hb Hj Hlo Hhi Hinv. apply hval_none_iff; auto. right.
+  exists j. repeat split; auto.
+  destruct Hb as (Hk & Hs & _).
+  destruct (Nat.lt_ge_cases j k); [exfalso|auto].
+  assert (ts (S j) <= ts k)%Z by (apply ts_mono; lia). lia.
+Qed.
+
+(* a period inside the data all of whose intervals (closed overlap) are
+   valid is not missing *)
+Lemma hval_valid i k : bracket i k ->
+  (pend i <= ts (n - 1))%Z ->
+  (forall j, (S j < n)%nat -> (ts j < pend i)%Z -> (pstart i <= ts (S j))%Z ->
+             ivl_invalid j = false) ->
+  hval i k = Some (area (pstart i) (pend i) / IZR P).
+Proof.
+  intros Hb Hcov Hval.
+  destruct (hval_cases i k Hb) as [Hn|]; [exfalso|auto].
+  apply hval_none_iff in Hn; auto.
+  destruct Hn as [[_ Hl]|(j & Hkj & Hj & Ht & Hi)]; [lia|].
+  rewrite Hval in Hi; auto; [discriminate|].
+  destruct Hb as (Hk & Hs & [Hbr|Hbr]).
+  - assert (ts (S k) <= ts (S j))%Z by (apply ts_mono; lia). lia.
+  - assert (j = k) by lia. subst j. rewrite Hbr. pose proof (pstart_lt_pend i). lia.
+Qed.
+
+(* repaired kernel: a period that extends past the last stamp is missing *)
+Lemma hval_uncovered i k : bracket i k -> endcheck = true ->
+  (ts (n - 1) < pend i)%Z -> hval i k = None.
+Proof. intros Hb He Hl. apply hval_none_iff; auto. Qed.
+
+(* ------------------------------------------------------------------ *)
+(* additivity of the area, conservation over runs of periods *)
+
+Lemma psum_add s1 e1 s2 e2 s3 e3 a b :
+  (forall j, (a <= j < b)%nat -> pc s1 e1 j + pc s2 e2 j = pc s3 e3 j) ->
+  psum s1 e1 a b + psum s2 e2 a b = psum s3 e3 a b.
+Proof.
+  unfold psum. intros H.
+  assert (forall l, (forall j, In j l -> pc s1 e1 j + pc s2 e2 j = pc s3 e3 j) ->
+          fold_right Rplus 0 (map (pc s1 e1) l) + fold_right Rplus 0 (map (pc s2 e2) l)
+          = fold_right Rplus 0 (map (pc s3 e3) l)) as Hl.
+  { induction l; simpl; intros Hj; [lra|].
+    rewrite <- (Hj a0) by auto. rewrite <- IHl by auto. lra. }
+  apply Hl. intros j Hin. apply in_seq in Hin. apply H. lia.
+Qed.
+
+Lemma area_additive s m e : (s <= m <= e)%Z -> area s m + area m e = area s e.
+Proof.
+  intros H. unfold area. apply psum_add. intros j Hj. unfold pc.
+  apply piece_additive; [apply Hsorted; lia | auto].
+Qed.
+
+Lemma area_empty s : area s s = 0.
+Proof.
+  unfold area. apply psum_zero. intros j Hj. unfold pc. unfold piece.
+  destruct (Z.ltb_spec (Z.max (ts j) s) (Z.min (ts (S j)) s)); [|reflexivity].
+  specialize (Hsorted j ltac:(lia)). lia.
+Qed.
+
+(* sum of the areas of m consecutive periods from period a *)
+Fixpoint areas (a : Z) (m : nat) : R :=
+  match m with O => 0 | S m' => area (pstart a) (pend a) + areas (a + 1) m' end.
+
+Lemma areas_telescope a m : areas a m = area (pstart a) (pstart (a + Z.of_nat m)).
+Proof.
+  revert a; induction m as [|m IH]; intros a; cbn [areas].
+  - replace (a + Z.of_nat 0)%Z with a by lia. now rewrite area_empty.
+  - rewrite IH. rewrite pstart_succ.
+    replace (a + 1 + Z.of_nat m)%Z with (a + Z.of_nat (S m))%Z by lia.
+    apply area_additive. rewrite <- pstart_succ. unfold pstart. nia.
+Qed.
+
+(* rainfall mode: the area over P is the total of the shares of the increments *)
+Lemma area_rain s e : rainfall = 1%Z ->
+  area s e / IZR P =
+  fold_right Rplus 0 (map (fun j => rv (S j) * rain_share s e (ts j) (ts (S j))) (seq 0 (n - 1 - 0))).
+Proof.
+  intros Hr. unfold area, psum.
+  assert (IZR P <> 0) by (apply not_0_IZR; lia).
+  induction (seq 0 (n - 1 - 0)) as [|j l IH]; simpl.
+  - unfold Rdiv; ring.
+  - rewrite <- IH. unfold pc. rewrite Hr. cbn [Z.eqb Pos.eqb]. rewrite piece_rain. field; auto.
+Qed.
+
 End KernelRN.
+
+(* ------------------------------------------------------------------ *)
+(* the theorems in terms of the output of the kernel *)
+
+Definition var2h_pre (P rainfall hstart : Z) (sec : list Z) : Prop :=
+  sorted_secs sec /\ (0 <= rainfall <= 1)%Z /\ In P VAR2H_C_PERIODS /\
+  (tsec sec 0 <= hstart)%Z /\
+  (exists k, (k < length sec)%nat /\ (hstart < tsec sec k)%Z).
+
+Lemma periods_pos P : In P VAR2H_C_PERIODS -> (0 < P)%Z.
+Proof.
+  unfold VAR2H_C_PERIODS. intros H.
+  repeat (destruct H as [<-|H]; [lia|]). destruct H.
+Qed.
+
+Lemma nth_skipn_0 {A} (l : list A) k d : nth 0 (skipn k l) d = nth k l d.
+Proof. revert l; induction k; destruct l; simpl; auto. Qed.
+
+Definition oval (o : option R) : R := match o with Some x => x | None => 0 end.
+
+(* sum of the values of periods a .. a+m-1 *)
+Definition osum (out : list (option R)) (a m : nat) : R :=
+  fold_right Rplus 0 (map (fun i => oval (nth i out None)) (seq a m)).
+
+Section KernelTheorems.
+Variable endcheck : bool.
+Variables (P rainfall maxgap hstart : Z) (sec : list Z) (vals : list (option R)).
+Variable hinit : list (option R).
+
+Local Notation n := (length sec).
+Local Notation ts := (tsec sec).
+Local Notation run := (c_var2h_RN endcheck P rainfall maxgap hstart sec vals hinit).
+Local Notation ps := (pstart P hstart).
+Local Notation pe := (pend P hstart).
+Local Notation ar := (area P rainfall sec vals).
+Local Notation hv := (hval endcheck P rainfall maxgap hstart sec vals).
+Local Notation br := (bracket P hstart sec).
+Local Notation inval := (ivl_invalid maxgap sec vals).
+
+Hypothesis Hpre : var2h_pre P rainfall hstart sec.
+
+Lemma pre_sorted : sorted_secs sec. Proof. apply Hpre. Qed.
+Lemma pre_P : (0 < P)%Z. Proof. apply periods_pos, Hpre. Qed.
+
+(* the kernel succeeds, returns as many values as it was given, and never
+   writes the last one *)
+Lemma kernel_ok :
+  exists out, run = VOk out /\ length out = length hinit /\
+              forall d, nth (length hinit - 1) out d = nth (length hinit - 1) hinit d.
+Proof.
+  destruct Hpre as (Hs & Hr & Hin & H0 & Hex).
+  destruct (c_var2h_RN_spec endcheck P rainfall maxgap hstart sec vals Hs hinit Hr Hin H0 Hex)
+    as (v & Hb & Hrun).
+  eexists; split; [exact Hrun|]. split.
+  - rewrite app_length, spec_periods_length, skipn_length. lia.
+  - intros d. rewrite app_nth2; rewrite spec_periods_length; [|lia].
+    rewrite Nat.sub_diag. apply nth_skipn_0.
+Qed.
+
+(* every computed period is [hval] at an index bracketing the period start *)
+Lemma kernel_period out i : run = VOk out -> (i < length hinit - 1)%nat ->
+  exists k, br (Z.of_nat i) k /\ nth i out None = hv (Z.of_nat i) k.
+Proof.
+  intros Hrun Hi.
+  destruct Hpre as (Hs & Hr & Hin & H0 & Hex).
+  destruct (c_var2h_RN_spec endcheck P rainfall maxgap hstart sec vals Hs hinit Hr Hin H0 Hex)
+    as (v & Hb & Hrun').
+  rewrite Hrun' in Hrun. injection Hrun as <-.
+  rewrite app_nth1 by (rewrite spec_periods_length; lia).
+  destruct (spec_periods_nth endcheck P rainfall maxgap hstart sec vals pre_P
+              (length hinit - 1) 0 v i Hi Hb) as (k & Hk & Hn).
+  exists k. now rewrite Z.add_0_l in *.
+Qed.
+
+(* * period_value: a value is missing or the area of its period over P *)
+Lemma period_value out i : run = VOk out -> (i < length hinit - 1)%nat ->
+  nth i out None = None \/
+  nth i out None = Some (ar (ps (Z.of_nat i)) (pe (Z.of_nat i)) / IZR P).
+Proof.
+  intros Hrun Hi. destruct (kernel_period out i Hrun Hi) as (k & Hb & ->).
+  apply hval_cases; auto using pre_sorted, pre_P.
+Qed.
+
+(* * missing_iff: the exact condition, relative to an index k bracketing the
+   start of the period *)
+Lemma missing_iff out i : run = VOk out -> (i < length hinit - 1)%nat ->
+  exists k, br (Z.of_nat i) k /\
+    (nth i out None = None <->
+     (endcheck = true /\ (ts (n - 1) < pe (Z.of_nat i))%Z) \/
+     exists j, (k <= j)%nat /\ (S j < n)%nat /\ (ts j < pe (Z.of_nat i))%Z /\ inval j = true).
+Proof.
+  intros Hrun Hi. destruct (kernel_period out i Hrun Hi) as (k & Hb & ->).
+  exists k. split; auto. apply hval_none_iff; auto using pre_sorted, pre_P.
+Qed.
+
+(* an invalid interval that overlaps the period (positive length in common) *)
+Lemma missing_if_overlap_invalid out i j : run = VOk out -> (i < length hinit - 1)%nat ->
+  (S j < n)%nat -> (ts j < pe (Z.of_nat i))%Z -> (ps (Z.of_nat i) < ts (S j))%Z ->
+  ivl_invalid_spec maxgap sec vals j -> nth i out None = None.
+Proof.
+  intros Hrun Hi Hj H1 H2 Hinv. destruct (kernel_period out i Hrun Hi) as (k & Hb & ->).
+  eapply hval_overlap_invalid; eauto using pre_sorted, pre_P. now apply ivl_invalid_iff.
+Qed.
+
+(* a period inside the data whose intervals (closed overlap) are all valid *)
+Lemma present_if_valid out i : run = VOk out -> (i < length hinit - 1)%nat ->
+  (pe (Z.of_nat i) <= ts (n - 1))%Z ->
+  (forall j, (S j < n)%nat -> (ts j < pe (Z.of_nat i))%Z -> (ps (Z.of_nat i) <= ts (S j))%Z ->
+             ~ ivl_invalid_spec maxgap sec vals j) ->
+  nth i out None = Some (ar (ps (Z.of_nat i)) (pe (Z.of_nat i)) / IZR P).
+Proof.
+  intros Hrun Hi Hcov Hval. destruct (kernel_period out i Hrun Hi) as (k & Hb & ->).
+  apply hval_valid; auto using pre_sorted, pre_P.
+  intros j Hj H1 H2. destruct (inval j) eqn:E; [|reflexivity].
+  exfalso. apply (Hval j Hj H1 H2). now apply ivl_invalid_iff.
+Qed.
+
+(* repaired kernel: a period that extends past the last stamp is missing *)
+Lemma uncovered_missing out i : endcheck = true -> run = VOk out ->
+  (i < length hinit - 1)%nat -> (ts (n - 1) < pe (Z.of_nat i))%Z -> nth i out None = None.
+Proof.
+  intros He Hrun Hi Hl. destruct (kernel_period out i Hrun Hi) as (k & Hb & ->).
+  apply hval_uncovered; auto using pre_sorted, pre_P.
+Qed.
+
+(* * conservation: over a run of non-missing periods the values times P add
+   up to the area between the start of the first and the end of the last *)
+Lemma conservation out a m : run = VOk out -> (a + m <= length hinit - 1)%nat ->
+  (forall i, (a <= i < a + m)%nat -> nth i out None <> None) ->
+  osum out a m * IZR P = ar (ps (Z.of_nat a)) (ps (Z.of_nat a + Z.of_nat m)).
+Proof.
+  intros Hrun Hlen Hnn.
+  rewrite <- (areas_telescope P rainfall hstart sec vals pre_sorted pre_P).
+  revert a Hlen Hnn. induction m as [|m IH]; intros a Hlen Hnn; unfold osum; cbn [seq map fold_right areas].
+  - ring.
+  - fold (osum out (S a) m). rewrite Rmult_plus_distr_r, (IH (S a)) by (try lia; intros; apply Hnn; lia).
+    replace (Z.of_nat (S a)) with (Z.of_nat a + 1)%Z by lia. f_equal.
+    destruct (period_value out a Hrun ltac:(lia)) as [Hn|Hs]; [exfalso; apply (Hnn a); [lia|auto]|].
+    rewrite Hs. cbn [oval]. field. apply not_0_IZR. pose proof pre_P. lia.
+Qed.
+
+End KernelTheorems.
